@@ -75,3 +75,22 @@ Theorem C05_redis_gc_removes_fresh_refuted :
     r_hash (k_swarm v6 true ih) (red_put_seeder ih v6 pk t (red_gc T st0)) !! pk = Some t.
 Proof. exact redis_gc_removes_fresh_refuted. Qed.
 Print Assumptions C05_redis_gc_removes_fresh_refuted.
+
+(* ---- memory store, concurrent: the pass's per-swarm step is a write step of the lock machine (atomic by
+   C04_mem_fine_refines_atomic); applied to the shard AS IT IS at that instant - whatever ran since the pass
+   snapshotted the shard - it removes from its swarm exactly the memberships announced at or before the
+   cutoff, never one announced after it, and touches no other swarm *)
+From Chihaya Require Import Model.MemLocks Proofs.MemLocksP.
+Theorem C05_mem_gc_step_exact : forall T ih ih' pk (sh : shard),
+  let sw := sm_get ih' (swarms sh) in
+  let sw' := sm_get ih' (swarms (shard_gc_one T ih sh)) in
+  seeders sw' !! pk =
+    (if decide (ih' = ih)
+     then match seeders sw !! pk with Some t => if decide (T < t) then Some t else None | None => None end
+     else seeders sw !! pk) /\
+  leechers sw' !! pk =
+    (if decide (ih' = ih)
+     then match leechers sw !! pk with Some t => if decide (T < t) then Some t else None | None => None end
+     else leechers sw !! pk).
+Proof. exact gc_step_exact. Qed.
+Print Assumptions C05_mem_gc_step_exact.
